@@ -15,16 +15,22 @@ import props.c02 as P
 
 STATES = P.STATES
 found = {}
+# one context for the whole campaign (a context per input re-read known_findings.json a thousand times per second and raised -
+# a libFuzzer "crash" - whenever another process was rewriting that file at that moment)
+CTX = core.Ctx("C02")
 
 def target(data):
     if len(data) < 2:
         return
     mode, state = STATES[data[0] % len(STATES)]
     case = {"data": bytes(data[2:]), "mode": mode, "state": state, "chunked": bool(data[1] & 1), "labels": ["atheris"]}
-    ctx = core.Ctx("C02")
+    ctx = CTX
+    n0 = len(ctx.violations)
     ctx._cur_check, ctx._cur_case = "bytes", case
     P.check_bytes(ctx, case)
-    for v in ctx.violations:
+    if len(ctx.distinct) > 200000:
+        ctx.distinct.clear(); ctx.nontrivial.clear()
+    for v in ctx.violations[n0:]:
         k = (v["clause"], v["key"])
         if k not in found:
             found[k] = True
